@@ -63,7 +63,9 @@ func loadCatalog(path string) []graphobs.AbsCert {
 	return cat
 }
 
-func runCase(p *graphobs.Pool, rc RCase) graphobs.VObs {
+// runCase returns one observation, or two when a OneCRL is supplied: one with the set built by
+// hand, one with the set obtained from the real parser mozilla.Parse.
+func runCase(p *graphobs.Pool, rc RCase) []graphobs.VObs {
 	byID := map[string]graphobs.AbsCert{}
 	for _, c := range rc.Certs {
 		byID[c.ID] = c
@@ -78,7 +80,11 @@ func runCase(p *graphobs.Pool, rc RCase) graphobs.VObs {
 			obs.Fatal("graph construction panicked (a C10 matter): %s", pan)
 		}
 	}
-	return p.Verify(b, rc.Start, rc.T, rc.Name, rc.OneCRL, rc.CRLSet)
+	out := []graphobs.VObs{p.Verify(b, rc.Start, rc.T, rc.Name, rc.OneCRL, rc.CRLSet, false)}
+	if rc.OneCRL.Has {
+		out = append(out, p.Verify(b, rc.Start, rc.T, rc.Name, rc.OneCRL, rc.CRLSet, true))
+	}
+	return out
 }
 
 type collector struct {
@@ -154,7 +160,9 @@ func main() {
 						rc.Certs = append(rc.Certs, c)
 						rc.Ops = append(rc.Ops, graphobs.Op{C: c.ID, Root: isRoot[tc.Add[j]]})
 					}
-					col.add(rc, runCase(p, rc))
+					for _, o := range runCase(p, rc) {
+						col.add(rc, o)
+					}
 				}
 			}()
 		}
@@ -210,7 +218,13 @@ func main() {
 				tm := bounds[rng.Intn(len(bounds))] + rng.Intn(3) - 1
 				rc := RCase{Certs: in, Ops: ops, Start: st, T: tm, Name: []string{"", "a.example", "b.example"}[rng.Intn(3)]}
 				other := certs[rng.Intn(len(certs))]
-				switch rng.Intn(8) {
+				switch rng.Intn(10) {
+				case 5:
+					rc.OneCRL = graphobs.Rev{Has: true, Listed: [][]any{{st.Iss, st.Serial}}}
+					rc.CRLSet = graphobs.Rev{Has: true, Listed: [][]any{{other.SKey, other.Serial}}}
+				case 6:
+					rc.OneCRL = graphobs.Rev{Has: true, Listed: [][]any{{other.Iss, other.Serial}}}
+					rc.CRLSet = graphobs.Rev{Has: true, Listed: [][]any{{st.SKey, st.Serial}}}
 				case 0:
 					rc.OneCRL = graphobs.Rev{Has: true, Listed: [][]any{{st.Iss, st.Serial}}}
 				case 1:
@@ -223,7 +237,9 @@ func main() {
 					rc.CRLSet = graphobs.Rev{Has: true, Blocked: []any{other.Key}, Listed: [][]any{{other.SKey, st.Serial}, {st.SKey, other.Serial}}}
 					rc.OneCRL = graphobs.Rev{Has: true}
 				}
-				col.add(rc, runCase(p, rc))
+				for _, o := range runCase(p, rc) {
+					col.add(rc, o)
+				}
 			}
 		}
 		col.w.Close()
@@ -238,7 +254,9 @@ func main() {
 		p := graphobs.NewPool()
 		rc.OneCRL.Norm()
 		rc.CRLSet.Norm()
-		w.Write(Rec{Obs: runCase(p, rc), Case: rc})
+		for _, o := range runCase(p, rc) {
+			w.Write(Rec{Obs: o, Case: rc})
+		}
 		w.Close()
 	default:
 		obs.Fatal("unknown command %q", os.Args[1])
